@@ -299,7 +299,8 @@ class ApproxZipfDistribution
       -> double
   {
     if (pow_ == 0.0) return (1 + log(n) + log(n + 1)) * 0.5;          // NOLINT
-    return (pow(n + 1, pow_) + pow(n, pow_) - 2) / (2 * pow_) + 0.5;  // NOLINT
+    // NOTE: pow(x, p) - 1 loses all significant digits when p is close to zero, so use expm1
+    return (expm1(pow_ * log(n + 1)) + expm1(pow_ * log(n))) / (2 * pow_) + 0.5;  // NOLINT
   }
 
   /*############################################################################
